@@ -49,6 +49,10 @@ pub struct Case {
     pub rounds: usize,
     pub port_order: Vec<usize>,
     pub arrival_seed: u64,
+    /// the masters announce in every `gap`-th round only (1 = every round); with gap <= 3 two
+    /// Announces of each are inside the four-interval window at the deciding run
+    #[serde(default)]
+    pub gap: usize,
 }
 
 fn idb(n: u8) -> [u8; 8] {
@@ -199,9 +203,10 @@ pub fn run_once(rep: &mut Report, case: &Case, port_order: &[usize], arrival_see
             round += 1;
             let mut order: Vec<usize> = (0..phase.len()).collect();
             order.shuffle(&mut rng);
+            let gap = case.gap.max(1);
             for &mi in &order {
                 let m = &phase[mi];
-                if m.port >= case.n_ports {
+                if m.port >= case.n_ports || (round - 1) % gap != 0 {
                     continue;
                 }
                 let seq = seqs.entry((m.sender_id, m.sender_port, m.port)).or_insert(rng.gen());
@@ -231,6 +236,15 @@ pub fn run_once(rep: &mut Report, case: &Case, port_order: &[usize], arrival_see
             }
             let is_final = round >= case.rounds;
             let prior: Vec<PState> = (0..case.n_ports).map(|i| to_pstate(node.port_state(i))).collect();
+            if is_final && gap > 1 {
+                // sparse announcers drop out of the window between their Announces, and the runs in
+                // between legitimately rewrite the data sets: what "untouched" means for the
+                // deciding run is the state right before it
+                let before = read_outcome(&node);
+                prev_expected_tp = Some(before.tp);
+                prev_parent = before.parent;
+                prev_steps = before.steps_removed;
+            }
             if let Err(p) = node.bmca_ordered(port_order) {
                 rep.violation(&format!("C05|panic|{}|{}", p.site(), p.class()), &format!("bmca panicked: {}", p.describe()), replay.clone());
                 return out;
@@ -262,6 +276,9 @@ pub fn run_once(rep: &mut Report, case: &Case, port_order: &[usize], arrival_see
                 continue;
             }
             rep.ev("bmca_compared");
+            if gap > 1 {
+                rep.ev(&format!("bmca_compared_masters_announcing_every_{gap}_intervals"));
+            }
             // expectation
             let ports: Vec<PortIn> = (0..case.n_ports)
                 .map(|i| PortIn {
@@ -327,7 +344,7 @@ pub fn run_once(rep: &mut Report, case: &Case, port_order: &[usize], arrival_see
             }
             // a mismatch must persist over a further round (transient foreign-master bookkeeping is C06's)
             let hard: Vec<_> = mism.iter().filter(|(c, _)| c != "time-properties|M1M2-not-own").cloned().collect();
-            if !hard.is_empty() && extra_rounds < 2 {
+            if !hard.is_empty() && extra_rounds < 2 && gap == 1 {
                 extra_rounds += 1;
                 continue;
             }
@@ -445,6 +462,7 @@ fn gen_case(rng: &mut StdRng) -> Case {
     let mut port_order: Vec<usize> = (0..n_ports).collect();
     port_order.shuffle(rng);
     let slave_only = rng.gen_bool(0.15);
+    let gap = [1usize, 1, 1, 2, 3][rng.gen_range(0..5)];
     Case {
         own_id: IDS[rng.gen_range(0..3)],
         p1: [127u8, 128][rng.gen_range(0..2)],
@@ -457,9 +475,10 @@ fn gen_case(rng: &mut StdRng) -> Case {
         master_only: (0..n_ports).map(|_| !slave_only && rng.gen_bool(0.15)).collect(),
         pre_master: (0..n_ports).map(|_| !slave_only && rng.gen_bool(0.3)).collect(),
         phases,
-        rounds: 9,
+        rounds: if gap == 3 { 10 } else { 9 },
         port_order,
         arrival_seed: rng.gen(),
+        gap,
     }
 }
 
@@ -541,6 +560,7 @@ pub fn run(rep: &mut Report, tier: &str, seed: u64, shard: (u32, u32), replay: O
                                                         rounds: 3,
                                                         port_order: vec![0],
                                                         arrival_seed: idx,
+                                                        gap: 1,
                                                     };
                                                     if run_case(rep, &case) {
                                                         rep.distinct_case(&format!("{case:?}"));
